@@ -478,6 +478,9 @@ class FactFlow:
 
     def loop_facts(self, target: ast.expr, it: ast.expr) -> Set[Fact]:
         out: Set[Fact] = set()
+        if isinstance(it, ast.Call) and isinstance(it.func, ast.Name) and it.func.id == "reversed" and len(it.args) == 1 and not it.keywords and \
+                isinstance(it.args[0], ast.Call) and isinstance(it.args[0].func, ast.Name) and it.args[0].func.id == "range":
+            return self.loop_facts(target, it.args[0])        # the same values in the other order: the same bounds
         if isinstance(it, ast.Call) and isinstance(it.func, ast.Name):
             if it.func.id == "range" and isinstance(target, ast.Name):
                 i = target.id
